@@ -30,13 +30,13 @@ def unit():
     C.invariant("len(self._values) == %s and len(self.ends) == %s and len(self._sortedEnds) == %s and len(self._sortedEndsIndices) == %s" % (n, n, n, n),
                 "parallel-arrays")
     C.invariant("forall(i, 0, %s, self._interval_starts[i] <= self.ends[i])" % n, "every-interval-has-start<=end")
-    C.invariant("forall(i, 0, %s, forall(j, i + 1, %s, self.ends[i] < self._interval_starts[j] or self.ends[j] < self._interval_starts[i]))" % (n, n),
+    C.invariant("forall(i, 0, %s, forall(j, 0, %s, implies(i != j, self.ends[i] < self._interval_starts[j] or self.ends[j] < self._interval_starts[i])))" % (n, n),
                 "no-two-intervals-share-a-point")
     C.invariant("forall(p, 0, %s, 0 <= self._sortedEndsIndices[p] and self._sortedEndsIndices[p] < %s"
                 " and self.rank[self._sortedEndsIndices[p]] == p and self._sortedEnds[p] == self.ends[self._sortedEndsIndices[p]],"
                 " trigger=self._sortedEndsIndices[p])" % (n, n), "sorted-ends-index-is-a-permutation")
-    C.invariant("forall(i, 0, %s, 0 <= self.rank[i] and self.rank[i] < %s and self._sortedEndsIndices[self.rank[i]] == i, trigger=self.rank[i])" % (n, n),
-                "every-interval-is-indexed")
+    C.invariant("forall(i, 0, %s, 0 <= self.rank[i] and self.rank[i] < %s and self._sortedEndsIndices[self.rank[i]] == i,"
+                " trigger=self.rank[i], alt_trigger=self.ends[i], alt_trigger2=self._interval_starts[i])" % (n, n), "every-interval-is-indexed")
     C.invariant("forall(p, 0, %s, forall(q, p, %s, self._sortedEnds[p] <= self._sortedEnds[q]))" % (n, n), "ends-ascending")
     U.var("p", INT), U.var("q", INT)
 
@@ -54,10 +54,28 @@ def unit():
     lp2.invariant("forall(t, 0, _i2, self._sortedEndsIndices[t] == _seq2[t][0] and self._sortedEnds[t] == _seq2[t][1])")
     m.ghost_exit("self.ends = interval_ends")
     m.ghost_exit("self.rank = lam(i, g_pinv(i))")
+    nn = "len(self._interval_starts)"
+    m.hint_exit("len(span_set.starts) == %s and span_set.in_n == %s" % (nn, nn), "nothing-was-dropped-by-the-disjointness-check")
+    m.hint_exit("forall(i, 0, %s, span_set.kept[i])" % nn, "every-interval-kept")
+    m.hint_exit("forall(i, 0, %s, span_set.in_s[i] == self._interval_starts[i] and span_set.in_e[i] == interval_ends[i])" % nn, "check-input=the-intervals")
+    m.hint_exit("forall(j, 0, %s, 0 <= span_set.dst[j] and span_set.dst[j] < len(span_set.starts) and span_set.src[span_set.dst[j]] == j"
+                " and span_set.starts[span_set.dst[j]] == self._interval_starts[j] and span_set.ends[span_set.dst[j]] == interval_ends[j])" % nn,
+                "where-each-interval-sits-in-the-check-set")
+    m.hint_exit("forall(i, 0, %s, forall(j, 0, i, not (interval_ends[i] >= self._interval_starts[j] and interval_ends[j] >= self._interval_starts[i])))" % nn,
+                "an-interval-does-not-overlap-an-earlier-one")
+    m.hint_exit("forall(i, 0, %s, forall(j, 0, %s, implies(i != j, interval_ends[i] < self._interval_starts[j] or interval_ends[j] < self._interval_starts[i])))" % (nn, nn),
+                "pairwise-disjoint")
     m.hint_exit("forall(k1, implies(k1 in mapping, 0 <= g_kidx(k1) and g_kidx(k1) < len(self._interval_starts)"
                 " and self._interval_starts[g_kidx(k1)] == k1[0] and self.ends[g_kidx(k1)] == k1[1]))", "where-each-interval-is-stored")
     m.hint_exit("forall(k1, forall(k2, implies((k1 in mapping) and (k2 in mapping) and k1 != k2, g_kidx(k1) != g_kidx(k2))))",
                 "different-intervals-different-positions")
+    m.hint_exit("forall(t, 0, %s, 0 <= g_perm(t) and g_perm(t) < %s and g_pinv(g_perm(t)) == t and self._sortedEndsIndices[t] == g_perm(t)"
+                " and self._sortedEnds[t] == interval_ends[g_perm(t)])" % (nn, nn), "sorted-position-t-holds-interval-perm(t)")
+    m.hint_exit("forall(i, 0, %s, 0 <= g_pinv(i) and g_pinv(i) < %s and g_perm(g_pinv(i)) == i)" % (nn, nn), "every-interval-has-a-sorted-position")
+    m.hint_exit("forall(p, 0, %s, forall(q, p, %s, self._sortedEnds[p] <= self._sortedEnds[q]))" % (nn, nn), "sorted-ends-ascending")
+    m.hint_exit("forall(k1, implies(k1 in mapping, k1[0] <= k1[1]))", "every-key-interval-valid")
+    m.hint_exit("forall(k1, forall(k2, implies((k1 in mapping) and (k2 in mapping) and k1 != k2, k1[1] < k2[0] or k2[1] < k1[0])))",
+                "no-two-key-intervals-share-a-point")
     m.ensures("len(self._interval_starts) == len(mapping)", "len=number-of-intervals")
     m.ensures("forall(t, 0, len(self._interval_starts), (tup(self._interval_starts[t], self.ends[t]) in mapping)"
               " and self._values[t] == mapping[tup(self._interval_starts[t], self.ends[t])])", "stored-intervals-carry-their-values")
